@@ -392,67 +392,15 @@ fn run_property(ctx: &Ctx, prop: &str) {
                 let c = streams::case(seed ^ 0x08, i, 40000, true);
                 streams::c08_case(&c, &mut Rng::new(seed ^ (i << 20)), 6, maxlim)
             }));
+            if ctx.thorough() {
+                merge(&mut s, est_summary(ctx, seed));
+            }
             write_summary(ctx, prop, &s,
                 "valid streams (real compressors, independent generator) x (estimator's vector + 6 random in-range perturbations over 7 hashes x 5 add policies x greedy/lazy x nice/chain/window/block-size/flags); Err or exact reconstruction and equal re-read parameters. Non-trivial = a vector under which analysis succeeded; distinct by (stream, vector).",
                 "");
         }
         "EST" => {
-            // correspondence of the complete parameter estimator with the model (`estimatefull`):
-            // no analysis, so many more and much larger streams than C08 can afford
-            let mut s = Summary::default();
-            let corpus = corpus_streams();
-            merge(&mut s, run_cases(ctx, corpus.len() as u64, |i| streams::est_case(&corpus[i as usize].0, &corpus[i as usize].1, 300_000)));
-            let bs = streams::boundary_streams(&mut Rng::new(seed ^ 0xB08), ctx.thorough());
-            let mut t = run_cases(ctx, bs.len() as u64, |i| streams::est_case(&bs[i as usize].0, &bs[i as usize].1, 300_000));
-            t.samples.truncate(1);
-            merge(&mut s, t);
-            let ds = streams::est_directed_streams(&mut Rng::new(seed ^ 0xD1E));
-            let mut t = run_cases(ctx, ds.len() as u64, |i| {
-                let mut o = streams::est_case(&ds[i as usize].0, &ds[i as usize].1, 300_000);
-                o.tags.push("directed".into());
-                o
-            });
-            t.samples.truncate(1);
-            merge(&mut s, t);
-            // random plaintexts up to 70000 bytes (beyond the 64 KiB position range of the depth tables)
-            let n = ctx.n(3000, 30000);
-            merge(&mut s, run_cases(ctx, n, |i| {
-                let c = streams::case(seed ^ 0xE5, i, 70000, true);
-                let mut o = streams::est_case(&c.s.bytes, &c.s.label, 80_000);
-                o.tags.push(format!("src-{:?}", c.source));
-                o
-            }));
-            // slices of the repository's sample files (realistic data, up to 300 KB) through the real compressors
-            let plains: Vec<Vec<u8>> = repo_samples()
-                .into_iter()
-                .filter(|(b, l)| b.len() > 100_000 && (l.ends_with(".bin") || l.ends_with(".samplesave") || l.ends_with(".lep")))
-                .map(|(b, _)| b)
-                .collect();
-            if !plains.is_empty() {
-                let m = ctx.n(400, 4000);
-                let mut t = run_cases(ctx, m, |i| {
-                    let mut r = Rng::new((seed ^ 0xE57).wrapping_mul(0x9E3779B97F4A7C15) ^ i.wrapping_mul(0xD1B54A32D192ED03));
-                    let f = &plains[r.below(plains.len() as u64) as usize];
-                    let len = *r.pick(&[3000usize, 20000, 65530, 65536, 66000, 100_000, 131_072, 200_000, 300_000]);
-                    let len = len.min(f.len());
-                    let st = r.below((f.len() - len) as u64 + 1) as usize;
-                    let c = gen::real_stream_of(&mut r, f[st..st + len].to_vec());
-                    let mut o = streams::est_case(&c.bytes, &c.label, 400_000);
-                    o.tags.push("sample-slice".into());
-                    o
-                });
-                t.samples.truncate(2);
-                merge(&mut s, t);
-            }
-            // the repository's own sample streams
-            let files: Vec<(Vec<u8>, String)> = repo_samples().into_iter().filter(|(_, l)| l.ends_with(".deflate")).collect();
-            let mut t = run_cases(ctx, files.len() as u64, |i| {
-                let mut o = streams::est_case(&files[i as usize].0, &files[i as usize].1, 1_000_000);
-                o.tags.push("sample-stream".into());
-                o
-            });
-            t.samples.truncate(2);
-            merge(&mut s, t);
+            let s = est_summary(ctx, seed);
             write_summary(ctx, prop, &s,
                 "parseable streams (corpus, boundary streams, directed streams at the estimator's decision boundaries, 4 real compressors at all levels/strategies, the independent generator, slices of the sample files up to 300 KB, the sample streams); the hook's complete 19-field estimator vector (or err / panic) is the expected answer of an `estimatefull` request to the model. Non-trivial = a vector with a hash algorithm; distinct by stream digest.",
                 "");
@@ -472,6 +420,66 @@ fn run_property(ctx: &Ctx, prop: &str) {
             std::process::exit(2);
         }
     }
+}
+
+/// correspondence of the complete parameter estimator with the model (`estimatefull` requests): no
+/// analysis, so many more and much larger streams than C08's own cases can afford
+fn est_summary(ctx: &Ctx, seed: u64) -> Summary {
+    let mut s = Summary::default();
+    let corpus = corpus_streams();
+    merge(&mut s, run_cases(ctx, corpus.len() as u64, |i| streams::est_case(&corpus[i as usize].0, &corpus[i as usize].1, 300_000)));
+    let bs = streams::boundary_streams(&mut Rng::new(seed ^ 0xB08), ctx.thorough());
+    let mut t = run_cases(ctx, bs.len() as u64, |i| streams::est_case(&bs[i as usize].0, &bs[i as usize].1, 300_000));
+    t.samples.truncate(1);
+    merge(&mut s, t);
+    let ds = streams::est_directed_streams(&mut Rng::new(seed ^ 0xD1E));
+    let mut t = run_cases(ctx, ds.len() as u64, |i| {
+        let mut o = streams::est_case(&ds[i as usize].0, &ds[i as usize].1, 300_000);
+        o.tags.push("directed".into());
+        o
+    });
+    t.samples.truncate(1);
+    merge(&mut s, t);
+    // random plaintexts up to 70000 bytes (beyond the 64 KiB position range of the depth tables)
+    let n = ctx.n(3000, 30000);
+    merge(&mut s, run_cases(ctx, n, |i| {
+        let c = streams::case(seed ^ 0xE5, i, 70000, true);
+        let mut o = streams::est_case(&c.s.bytes, &c.s.label, 80_000);
+        o.tags.push(format!("src-{:?}", c.source));
+        o
+    }));
+    // slices of the repository's sample files (realistic data, up to 300 KB) through the real compressors
+    let plains: Vec<Vec<u8>> = repo_samples()
+        .into_iter()
+        .filter(|(b, l)| b.len() > 100_000 && (l.ends_with(".bin") || l.ends_with(".samplesave") || l.ends_with(".lep")))
+        .map(|(b, _)| b)
+        .collect();
+    if !plains.is_empty() {
+        let m = ctx.n(400, 4000);
+        let mut t = run_cases(ctx, m, |i| {
+            let mut r = Rng::new((seed ^ 0xE57).wrapping_mul(0x9E3779B97F4A7C15) ^ i.wrapping_mul(0xD1B54A32D192ED03));
+            let f = &plains[r.below(plains.len() as u64) as usize];
+            let len = *r.pick(&[3000usize, 20000, 65530, 65536, 66000, 100_000, 131_072, 200_000, 300_000]);
+            let len = len.min(f.len());
+            let st = r.below((f.len() - len) as u64 + 1) as usize;
+            let c = gen::real_stream_of(&mut r, f[st..st + len].to_vec());
+            let mut o = streams::est_case(&c.bytes, &c.label, 400_000);
+            o.tags.push("sample-slice".into());
+            o
+        });
+        t.samples.truncate(2);
+        merge(&mut s, t);
+    }
+    // the repository's own sample streams
+    let files: Vec<(Vec<u8>, String)> = repo_samples().into_iter().filter(|(_, l)| l.ends_with(".deflate")).collect();
+    let mut t = run_cases(ctx, files.len() as u64, |i| {
+        let mut o = streams::est_case(&files[i as usize].0, &files[i as usize].1, 1_000_000);
+        o.tags.push("sample-stream".into());
+        o
+    });
+    t.samples.truncate(2);
+    merge(&mut s, t);
+    s
 }
 
 fn main() {
